@@ -412,6 +412,18 @@ impl BuildConfig {
     }
 }
 
+/// Returns `true` if the builder's padding requires a bundle even when no spends or
+/// outputs have been added to it.
+fn orchard_bundle_required(builder: &orchard::builder::Builder) -> bool {
+    matches!(
+        builder.bundle_type(),
+        orchard::builder::BundleType::Transactional {
+            bundle_required: true,
+            ..
+        }
+    )
+}
+
 fn orchard_action_count(
     builder: &orchard::builder::Builder,
     is_coinbase: bool,
@@ -876,8 +888,29 @@ impl<P, U> Builder<P, U> {
         })
     }
 
+    /// Returns `true` if the transaction will carry an Orchard bundle: something has been
+    /// added to the Orchard builder, or its padding requires a bundle of dummy actions
+    /// regardless (in which case the bundle is built, and charged for, even when empty).
+    fn orchard_bundle_expected(&self) -> bool {
+        self.orchard_in_use()
+            || self
+                .orchard_builder
+                .as_ref()
+                .is_some_and(orchard_bundle_required)
+    }
+
+    /// Returns `true` if the transaction will carry an Ironwood bundle (see
+    /// [`Self::orchard_bundle_expected`]).
+    fn ironwood_bundle_expected(&self) -> bool {
+        self.ironwood_in_use()
+            || self
+                .ironwood_builder
+                .as_ref()
+                .is_some_and(orchard_bundle_required)
+    }
+
     /// Checks that the given version supports all features required by the inputs and
-    /// outputs already added to the builder.
+    /// outputs already added to the builder, and by the bundles its padding requires.
     fn check_version_compatibility<FE>(&self, version: TxVersion) -> Result<(), Error<FE>> {
         if !version.valid_in_branch(self.consensus_branch_id) {
             return Err(Error::TargetIncompatible(
@@ -899,7 +932,7 @@ impl<P, U> Builder<P, U> {
         }
 
         let orchard_available = version.has_orchard() && self.consensus_branch_id.has_orchard();
-        if !orchard_available && self.orchard_in_use() {
+        if !orchard_available && self.orchard_bundle_expected() {
             return Err(Error::TargetIncompatible(
                 self.consensus_branch_id,
                 version,
@@ -917,7 +950,7 @@ impl<P, U> Builder<P, U> {
                 _ => false,
             };
             let ironwood_available = version.has_ironwood() && ironwood_branch;
-            if !ironwood_available && self.ironwood_in_use() {
+            if !ironwood_available && self.ironwood_bundle_expected() {
                 return Err(Error::TargetIncompatible(
                     self.consensus_branch_id,
                     version,
